@@ -56,10 +56,16 @@ SumArgs(args) ==
 UpName(f) == f      \* names in instances are written in upper case unless a case says otherwise
 SameNameIgnoringCase(a, b) == UpperSeq(NameCodes(a)) = UpperSeq(NameCodes(b))
 
-EvalCallStrict(f, vals) ==
+\* the name a call is looked up under: an _xlfn. prefix (how newer functions are stored in files) is ignored (C08)
+XlfnNames == {"CONCAT", "DAYS", "ISOWEEKNUM", "XNPV", "XIRR", "COUNTIFS", "SUMIFS"}
+PlainName(f) == IF \E g \in XlfnNames : f = "_xlfn." \o g THEN CHOOSE g \in XlfnNames : f = "_xlfn." \o g ELSE f
+
+EvalCallStrict(f0, vals) ==
+    LET f == PlainName(f0) IN
     CASE f = "SUM"    -> SumArgs(vals)
       [] f = "COUNTA" -> IF AnyOpenIn(FlatVals(vals)) THEN Open ELSE Whole(CountNonBlank(FlatVals(vals)))
-      [] f \in {"MAX", "MIN", "AVERAGE"} -> (LET fe == FirstErr(FlatVals(vals)) IN IF fe.t = "err" THEN fe ELSE Open)   \* XlAgg has the values
+      \* (XlAgg determines the folds over numbers, empty cells and plain text in ranges and over numbers written as arguments)
+      [] f \in {"MAX", "MIN", "AVERAGE"} -> (LET fe == FirstErr(FlatVals(vals)) IN IF fe.t = "err" THEN fe ELSE LibCall(f, vals))
       [] OTHER        -> LibCall(f, vals)          \* every modelled function family
 
 RECURSIVE Eval(_, _, _)
